@@ -62,14 +62,14 @@ package kernel
 //@   ensures [requeued] StoreErrors(node.persistStore) == old(StoreErrors(node.persistStore)) ==>
 //@       (forall i int :: {hashes[i]} 0 <= i && i < len(hashes) && Eligible(node.persistStore, hashes[i]) ==> Queued(node.persistStore, hashes[i]))
 //@   -- nothing else is queued, a finalized transaction is never queued, and nothing leaves the queue
-//@   ensures [only] forall h crypto.Hash :: {Queued(node.persistStore, h)} Queued(node.persistStore, h) != old(Queued(node.persistStore, h)) ==>
+//@   ensures [only] forall h crypto.Hash :: {QueuedId(node.persistStore, kvval(h))} Queued(node.persistStore, h) != old(Queued(node.persistStore, h)) ==>
 //@       !Finalized(node.persistStore, h) && (exists i int :: 0 <= i && i < len(hashes) && hashes[i] == h)
 //@   ensures [monotone] forall k mathint :: {QueuedId(node.persistStore, k)} QueuedId(node.persistStore, k) != old(QueuedId(node.persistStore, k)) ==> QueuedId(node.persistStore, k) == 1
 //@   ensures [errors-grow] StoreErrors(node.persistStore) >= old(StoreErrors(node.persistStore))
 //@   loop 0 invariant [errors-grow] StoreErrors(node.persistStore) >= old(StoreErrors(node.persistStore))
 //@   loop 0 invariant [requeued] StoreErrors(node.persistStore) == old(StoreErrors(node.persistStore)) ==>
 //@       (forall i int :: {hashes[i]} 0 <= i && i <= rangeindex && Eligible(node.persistStore, hashes[i]) ==> Queued(node.persistStore, hashes[i]))
-//@   loop 0 invariant [only] forall h crypto.Hash :: {Queued(node.persistStore, h)} Queued(node.persistStore, h) != old(Queued(node.persistStore, h)) ==>
+//@   loop 0 invariant [only] forall h crypto.Hash :: {QueuedId(node.persistStore, kvval(h))} Queued(node.persistStore, h) != old(Queued(node.persistStore, h)) ==>
 //@       !Finalized(node.persistStore, h) && (exists i int :: 0 <= i && i <= rangeindex && hashes[i] == h)
 //@   loop 0 invariant [monotone] forall k mathint :: {QueuedId(node.persistStore, k)} QueuedId(node.persistStore, k) != old(QueuedId(node.persistStore, k)) ==> QueuedId(node.persistStore, k) == 1
 
@@ -111,7 +111,7 @@ package kernel
 //@   modifies chain.CosiAggregators[-], chain.CosiVerifiers[-], ghost bytes_cachequeue, ghost store_errors
 //@   ensures [requeued] StoreErrors(chain.node.persistStore) == old(StoreErrors(chain.node.persistStore)) ==>
 //@       (forall i int :: {s.Transactions[i]} 0 <= i && i < len(s.Transactions) && Eligible(chain.node.persistStore, s.Transactions[i]) ==> Queued(chain.node.persistStore, s.Transactions[i]))
-//@   ensures [only] forall h crypto.Hash :: {Queued(chain.node.persistStore, h)} Queued(chain.node.persistStore, h) != old(Queued(chain.node.persistStore, h)) ==>
+//@   ensures [only] forall h crypto.Hash :: {QueuedId(chain.node.persistStore, kvval(h))} Queued(chain.node.persistStore, h) != old(Queued(chain.node.persistStore, h)) ==>
 //@       !Finalized(chain.node.persistStore, h) && (exists i int :: 0 <= i && i < len(s.Transactions) && s.Transactions[i] == h)
 //@   ensures [monotone] forall k mathint :: {QueuedId(chain.node.persistStore, k)} QueuedId(chain.node.persistStore, k) != old(QueuedId(chain.node.persistStore, k)) ==> QueuedId(chain.node.persistStore, k) == 1
 //@   ensures [errors-grow] StoreErrors(chain.node.persistStore) >= old(StoreErrors(chain.node.persistStore))
